@@ -827,13 +827,15 @@ func ruleR04_6(c *Check) {
 	if param == nil {
 		panic(anchorError{"Txn.modify(e *Entry)"})
 	}
-	isParam := func(e ast.Expr) bool {
-		id, ok := unparen(e).(*ast.Ident)
+	// (the store may sit in a helper called only from modify: its parameter is followed back to
+	// modify's own through Origin)
+	isParamIn := func(fn *Fn, e ast.Expr) bool {
+		id, ok := unparen(w.Origin(fn, e)).(*ast.Ident)
 		return ok && w.Use(id) == types.Object(param)
 	}
 	rec := selPred("pendingWrites[string(e.Key)] = e", func(w *World, fn *Fn, n ast.Node) bool {
 		as, ok := n.(*ast.AssignStmt)
-		if !ok || len(as.Lhs) != 1 || len(as.Rhs) != 1 || !isParam(as.Rhs[0]) {
+		if !ok || len(as.Lhs) != 1 || len(as.Rhs) != 1 || !isParamIn(fn, as.Rhs[0]) {
 			return false
 		}
 		ix, ok := unparen(as.Lhs[0]).(*ast.IndexExpr)
@@ -849,12 +851,12 @@ func ruleR04_6(c *Check) {
 			return false
 		}
 		if se, ok := unparen(idx).(*ast.SelectorExpr); ok {
-			return isParam(se.X)
+			return isParamIn(fn, se.X)
 		}
 		return false
 	})
-	n := r.ExitsNeed(f, "entry recorded in pendingWrites", rec, 0, exitSuccess)
-	r.Exists(n >= 1 && len(f.Sites(rec)) >= 1, f, "recording store", nil, "Txn.modify has no store pendingWrites[string(e.Key)] = e")
+	n := r.ExitsNeed(f, "entry recorded in pendingWrites", rec, 1, exitSuccess)
+	r.Exists(n >= 1 && len(f.SitesInl(rec)) >= 1, f, "recording store", nil, "Txn.modify has no store pendingWrites[string(e.Key)] = e")
 	// element stores and removals elsewhere
 	for _, o := range allStores(w, pw) {
 		as, ok := o.Node.(*ast.AssignStmt)
@@ -863,7 +865,11 @@ func ruleR04_6(c *Check) {
 		}
 		for _, l := range as.Lhs {
 			if ix, ok := unparen(l).(*ast.IndexExpr); ok && w.fieldOf(ix.X) == pw {
-				r.Check(o.SiteFn == f, o.SiteFn, "pendingWrites elements stored only by Txn.modify", o.Node, "an element of pendingWrites is stored outside Txn.modify (no validation, no size accounting, no conflict key)")
+				inModify := o.SiteFn == f
+				if cs := w.soleCallSite(o.SiteFn); cs != nil && cs.Caller != nil && cs.Caller.Root() == f {
+					inModify = true // a helper whose only call site is in modify
+				}
+				r.Check(inModify, o.SiteFn, "pendingWrites elements stored only by Txn.modify", o.Node, "an element of pendingWrites is stored outside Txn.modify (no validation, no size accounting, no conflict key)")
 			}
 		}
 	}
